@@ -27,6 +27,12 @@ def rd (mem : List Nat) (i : Nat) : M Nat :=
 /-- the byte `b` as the `char` (signed on this platform) the C++ code reads -/
 def toChar (b : Nat) : Int := if b < 128 then (b : Int) else (b : Int) - 256
 
+/-- read of entry `i` of a constant table of signed integers -/
+def rdI (tbl : List Int) (i : Nat) : M Int :=
+  match tbl[i]? with
+  | some v => .ok v
+  | none => .error (.oobRead i)
+
 abbrev rd8 := rd
 abbrev rd16 := rd
 abbrev rd32 := rd
